@@ -21,6 +21,7 @@
      changing what the API reports afterwards nor any later response (see the section for the exact
      statement and the relation used).
 -/
+import Placement.Lemmas.GuardTie
 import Placement.Lemmas.CoreStatus
 import Placement.Lemmas.CoreViews
 import Placement.Lemmas.CoreHist
